@@ -6,6 +6,8 @@ NEXT Next
 INVARIANT RoundTrip
 INVARIANT CanonicalAccepted
 INVARIANT SizeIsLength
+INVARIANT StreamRoundTrip
+INVARIANT BytesIsStreamPlusNoTrailing
 INVARIANT ExtensionSignedIffFee
 POSTCONDITION ExportSingles
 CHECK_DEADLOCK FALSE
